@@ -125,24 +125,27 @@ theorem tecmpCmM_eq (b p : Bytes) : tecmpCmM b p = some (tecmpCm b p) := by
   unfold tecmpCmM
   by_cases h : p.length < 18
   · simp [h, tecmpCm]
-  · simp [h, rdN_some p 8 4 (by omega), rdB_some p 13 5 (by omega)]
+  · have r4 : rdN p 4 2 = some (beAt p 4 2) := rdN_some p 4 2 (by omega)
+    by_cases hv : p.length - 12 < beAt p 4 2
+    · simp [h, r4, hv, tecmpCm]
+    · simp [h, r4, hv, rdN_some p 8 4 (by omega), rdB_some p 13 5 (by omega)]
 
-theorem tecmpBusEntriesM_eq (p : Bytes) : ∀ fuel off, tecmpBusEntriesM p fuel off = some () := by
+theorem tecmpBusEntriesM_eq (p : Bytes) (v : Nat) : ∀ fuel off, tecmpBusEntriesM p v fuel off = some () := by
   intro fuel
   induction fuel with
   | zero => intro off; rfl
   | succ n ih =>
     intro off
     unfold tecmpBusEntriesM
-    by_cases h : off + 12 ≤ p.length
-    · simp [h, rdB_some p off 12 h, ih]
+    by_cases h : off + (12 + v) ≤ p.length
+    · simp [h, rdB_some p off 12 (by omega), ih]
     · simp [h]
 
 theorem tecmpBusM_eq (b p : Bytes) : tecmpBusM b p = some (tecmpBus b p) := by
   unfold tecmpBusM
   by_cases h : p.length < 12
   · simp [h, tecmpBus]
-  · simp [h, rdB_some p 0 12 (by omega), tecmpBusEntriesM_eq]
+  · simp [h, rdB_some p 0 12 (by omega), rdN_some p 4 2 (by omega), tecmpBusEntriesM_eq]
 
 theorem tecmpDecodeM_eq (b : Bytes) : tecmpDecodeM b = some (tecmpDecode b) := by
   unfold tecmpDecodeM
@@ -241,16 +244,16 @@ theorem localStep_count (p : Option Pending) (f : PFrame) :
           · simp
         · simp
 
-theorem tecmpBusEntries_count (b p : Bytes) : ∀ fuel off, off ≤ p.length →
-    (tecmpBusEntries b p fuel off).length * 12 + off ≤ p.length := by
+theorem tecmpBusEntries_count (b p : Bytes) (v : Nat) : ∀ fuel off, off ≤ p.length →
+    (tecmpBusEntries b p v fuel off).length * 12 + off ≤ p.length := by
   intro fuel
   induction fuel with
   | zero => intro off h; simp [tecmpBusEntries]; exact h
   | succ n ih =>
     intro off h
     unfold tecmpBusEntries
-    by_cases h1 : off + 12 ≤ p.length
-    · have := ih (off + 12) h1
+    by_cases h1 : off + (12 + v) ≤ p.length
+    · have := ih (off + (12 + v)) h1
       simp only [h1, if_true, List.length_cons]
       omega
     · simp [h1]; exact h
@@ -262,7 +265,10 @@ theorem tecmpDecode_count (b : Bytes) : 12 * (tecmpDecode b).length ≤ b.length
   · rw [if_neg h]
     simp only
     have hcm : (tecmpCm b (b.drop 28)).length ≤ 1 := by
-      unfold tecmpCm; split <;> simp
+      unfold tecmpCm
+      split
+      · simp
+      · split <;> simp
     have hcan : (tecmpCan b (b.drop 28)).length ≤ 1 := by
       unfold tecmpCan
       split
@@ -282,7 +288,7 @@ theorem tecmpDecode_count (b : Bytes) : 12 * (tecmpDecode b).length ≤ b.length
       split
       · simp
       · rename_i h12
-        have := tecmpBusEntries_count b (b.drop 28) ((b.drop 28).length / 12 + 1) 12 (by omega)
+        have := tecmpBusEntries_count b (b.drop 28) (beAt (b.drop 28) 4 2) ((b.drop 28).length / 12 + 1) 12 (by omega)
         simp only [List.length_drop] at this h12 ⊢
         omega
     repeat' split
@@ -344,8 +350,8 @@ theorem localStep_payload (q : Option Pending) (f : PFrame) (hf : ∀ p ∈ f.un
           · exact hf p hp
         · exact hf p hp
 
-theorem tecmpBusEntries_payload (b p : Bytes) : ∀ fuel off,
-    ∀ x ∈ tecmpBusEntries b p fuel off, x.payload.isSome = true := by
+theorem tecmpBusEntries_payload (b p : Bytes) (v : Nat) : ∀ fuel off,
+    ∀ x ∈ tecmpBusEntries b p v fuel off, x.payload.isSome = true := by
   intro fuel
   induction fuel with
   | zero => intro off x hx; simp [tecmpBusEntries] at hx
@@ -365,7 +371,9 @@ theorem tecmpDecode_payload (b : Bytes) : ∀ x ∈ tecmpDecode b, x.payload.isS
     unfold tecmpCm at hx
     split at hx
     · simp at hx
-    · simp at hx; subst hx; simp [tecmpPacket]
+    · split at hx
+      · simp at hx
+      · simp at hx; subst hx; simp [tecmpPacket]
   have hcan : ∀ p, ∀ x ∈ tecmpCan b p, x.payload.isSome = true := by
     intro p x hx
     unfold tecmpCan at hx
@@ -389,7 +397,7 @@ theorem tecmpDecode_payload (b : Bytes) : ∀ x ∈ tecmpDecode b, x.payload.isS
     unfold tecmpBus at hx
     split at hx
     · simp at hx
-    · exact tecmpBusEntries_payload b p _ _ x hx
+    · exact tecmpBusEntries_payload b p _ _ _ x hx
   intro x hx
   unfold tecmpDecode at hx
   split at hx
